@@ -89,8 +89,11 @@ class World(object):
             if ready():
                 return True
 
+    quiet = False        # True: reader steps are performed and counted (nread ...) but not recorded
+
     def log(self, **ev):
-        self.events.append(ev)
+        if not self.quiet:
+            self.events.append(ev)
 
     def peers_until_marker(self):
         """perform peer items up to the next 'R' / 'C' marker (not consumed)"""
